@@ -27,6 +27,12 @@ func FindGitRepo(dirs ...string) (string, error) {
 			return "", err
 		}
 
+		// a directory outside of any repository: its files can't be restored by git, and a repository
+		// found for the other directories says nothing about them
+		if repoPath == "" {
+			return "", nil
+		}
+
 		if commonRepoPath == "" {
 			commonRepoPath = repoPath
 		} else if repoPath != commonRepoPath {
